@@ -197,6 +197,10 @@ def sortedStrs (t : Threaded) : List (Nat × StrRef) := t.strs.foldr insertSorte
 
 end Threaded
 
+/-- `Serialize for ThreadedRodeo`: the string->key map as `(string, raw key)` entries. -/
+def Threaded.serDoc (env : Env) (t : Threaded) : List (Bytes × Nat) :=
+  t.map.filterMap fun e => (t.content env e.1).map fun x => (x, e.2 + 1)
+
 /-! ## `Extend` / `FromIterator`: a loop over `get_or_intern` -/
 
 /-- `Extend::extend`: `get_or_intern` (infallible) on every item in order. Returns the interner as
